@@ -146,6 +146,7 @@ def check_lattice(ctx):
     cond, stmt = make_hooks(prog)
     n_paths = 0
     results = {}
+    used = {}
     for c in lattice():
         en = paths.Enumerator(cond_hook=cond, stmt_hook=stmt, snapshot=True)
         st = initial_state(c, params)
@@ -185,6 +186,12 @@ def check_lattice(ctx):
                 outcome.add('explicit-error')
             elif p.exit == 'return':
                 outcome.add('returns')
+                # which simulator produced the result on this path (the last `Sim = <Class>()` executed)
+                made = [src(e.node.value.func) for e in p.events if e.kind == 'stmt' and isinstance(e.node, ast.Assign) and src(e.node.targets[0]) == 'Sim'
+                        and isinstance(e.node.value, ast.Call)]
+                if c['mi'] in ('model', 'interface') and c['volume'] in ('off', 'true', 'number', 'object'):
+                    used.setdefault((c['stochastic'] or c['delay'], c['delay'], c['volume'] in ('true', 'number', 'object')), set()).add(
+                        (made[-1] if made else None, key_of(c)))
             else:
                 problems.append('path falls off the end without returning a result')
         results[key_of(c)] = (problems, outcome)
@@ -194,6 +201,17 @@ def check_lattice(ctx):
                'every path for this option combination raises an explicit option error or returns with all locals defined',
                '; '.join(uniq[:2]) or 'outcomes: %s (%d paths)' % (sorted(outcome), len(ps)))
     ctx.paths += n_paths
+    # "a result ... plus volume when one is used": which simulator runs is decided by the options alone - delay forces a stochastic run
+    # (the entry point says so in its warning), a volume that is given (flag, positive number, object) is used whenever the run is stochastic
+    want = {(False, False, False): 'DeterministicSimulator', (False, False, True): 'DeterministicSimulator',
+            (True, False, False): 'SSASimulator', (True, False, True): 'VolumeSSASimulator',
+            (True, True, False): 'DelaySSASimulator', (True, True, True): 'DelayVolumeSSASimulator'}
+    for trip, cls_ in sorted(want.items()):
+        got = used.get(trip, set())
+        wrong = sorted((k_, m_) for m_, k_ in got if m_ != cls_)
+        ctx.ob('R7.2-dispatch-table', 'stochastic-or-delay=%d/delay=%d/volume-given=%d' % trip, bool(got) and not wrong, where,
+               'every returning path for these options runs %s (%d option combinations)' % (cls_, len({k_ for _, k_ in got})),
+               '; '.join('%s runs %s' % w_ for w_ in wrong[:3]) if got else 'no returning path found')
     # both / neither must be rejected explicitly
     for c in lattice():
         if c['mi'] in ('both', 'neither') and not c['stochastic'] and not c['delay'] and not c['safe'] \
